@@ -91,20 +91,52 @@ def validate_chunk(k, sessions, props, work, timeout):
             for op in s:
                 f.write(json.dumps(op, separators=(",", ":")) + "\n")
                 n += 1
-    execute(script, trace, k)
+    # A call that never returns (C01: "always terminates") would hang the executor: it runs under a time limit,
+    # the operation that did not complete is identified from the flushed trace, its session is reported as a
+    # violation (class "hang") and the chunk is executed again without that session.
+    hung = []
+    live = list(range(len(sessions)))
+    while True:
+        done = execute(script, trace, k)
+        if done is None:
+            break
+        si_local = max(i for i, st in enumerate(starts) if st <= done + 1)
+        op = sessions[live[si_local]][done + 1 - starts[si_local]].get("op", "?")
+        hung.append((live[si_local], done + 1 - starts[si_local], op, "hang"))
+        if len(hung) > 8:
+            raise ToolError(f"more than 8 operations of chunk {k} did not return within the time limit")
+        del live[si_local]
+        starts, n = [], 0
+        with open(script, "w") as f:
+            for i in live:
+                starts.append(n + 1)
+                for o in sessions[i]:
+                    f.write(json.dumps(o, separators=(",", ":")) + "\n")
+                    n += 1
     bad, states, trans = tlc_validate(trace, n, props, work, k, timeout)
-    out_bad = []
+    out_bad = list(hung)
     for (line, op, cls) in bad:
         si = max(i for i, st in enumerate(starts) if st <= line)     # session containing this line
-        out_bad.append((si, line - starts[si], op, cls))
+        out_bad.append((live[si], line - starts[si], op, cls))
     return {"bad": out_bad, "events": n, "states": states, "transitions": trans, "trace": trace, "starts": starts}
 
 
+EXEC_TIMEOUT = int(os.environ.get("VERIF_EXEC_TIMEOUT", "300"))
+
+
 def execute(script, trace, k=0):
-    """run a script on the real crate; the recorded trace is written to `trace`"""
-    r = subprocess.run([RTCPV, "exec", script, trace], stdout=subprocess.PIPE, stderr=subprocess.PIPE, text=True)
+    """run a script on the real crate; the recorded trace is written to `trace`.
+    returns None when every operation returned, else the number of operations that completed before one
+    did not return within the time limit"""
+    try:
+        r = subprocess.run([RTCPV, "exec", script, trace], stdout=subprocess.PIPE, stderr=subprocess.PIPE, text=True,
+                           timeout=EXEC_TIMEOUT)
+    except subprocess.TimeoutExpired:
+        with open(trace) as f:
+            return sum(1 for _ in f)
     if r.returncode != 0:
         raise ToolError(f"executor failed on chunk {k} (exit {r.returncode}): {r.stderr[-2000:]}")
+    return None
 
 
 def tlc_validate(trace, n, props, work, k, timeout):
